@@ -66,6 +66,8 @@ pub enum Op {
     /// arm a single-shot storage fault: the PUT of the primary's metadata object fails after `k` more
     /// such PUTs succeeded (disarmed by restart / crash)
     Fault(usize),
+    /// disarm the fault
+    NoFault,
     Fixture(String),
 }
 
@@ -197,6 +199,7 @@ impl Op {
             Op::Restart => "restart".into(),
             Op::Crash => "crash".into(),
             Op::Fault(k) => format!("fault {k}"),
+            Op::NoFault => "nofault".into(),
             Op::Fixture(n) => format!("fixture {}", enc_str(n)),
             Op::Req(r) => {
                 let target = match &r.target {
@@ -226,6 +229,7 @@ impl Op {
             ["restart"] => Some(Op::Restart),
             ["crash"] => Some(Op::Crash),
             ["fault", k] => Some(Op::Fault(k.parse().ok()?)),
+            ["nofault"] => Some(Op::NoFault),
             ["fixture", n] => Some(Op::Fixture(dec_str(n)?)),
             ["req", verb, target, auth, ct, accept, body @ ..] => {
                 let mut raw = None;
